@@ -18,6 +18,8 @@ struct St {
     updated_tables: BTreeSet<String>,
     poisoned: BTreeSet<(String, String)>,
     vacuumed: bool,
+    /// the previous event was a checkpoint
+    after_flush: bool,
 }
 
 fn key_str(vals: &[Val], cols: &[usize]) -> String {
@@ -114,7 +116,7 @@ impl St {
                 if has("drop_table_inside_session") && k.is_some() {
                     return Some("drop_table_inside_session".into());
                 }
-                if has("drop_table_before_crash") {
+                if has("drop_table_before_crash") && !(has("drop_only_after_checkpoint") && self.after_flush && k.is_none() && !in_batch && self.sess.is_empty()) {
                     return Some("drop_table_before_crash".into());
                 }
             }
@@ -152,6 +154,12 @@ impl St {
                         }
                     }
                 }
+            }
+            Stmt::Alter { action: AlterAction::DropColumn(_), .. } if has("alter_drop_column") && !matches!(exp, Expect::Fail(_)) => {
+                return Some("alter_drop_column".into());
+            }
+            Stmt::Alter { action: AlterAction::AddColumn(_), .. } if has("alter_add_column") && !matches!(exp, Expect::Fail(_)) => {
+                return Some("alter_add_column".into());
             }
             Stmt::CreateIndex { cols, .. } => {
                 if has("mixed_type_index_out_of_table_order") && !matches!(exp, Expect::Fail(_)) {
@@ -246,8 +254,10 @@ pub fn first_violation(events: &[Event], guards: &[String]) -> Option<(usize, St
         updated_tables: BTreeSet::new(),
         poisoned: BTreeSet::new(),
         vacuumed: false,
+        after_flush: false,
     };
     for (i, ev) in events.iter().enumerate() {
+        st.after_flush = i > 0 && matches!(events[i - 1], Event::Flush);
         match ev {
             Event::Auto(s) => {
                 let tx = st.model.begin();
